@@ -12,8 +12,11 @@ import itertools
 import json
 import os
 import re
+import atexit
+import shutil
 import subprocess
 import sys
+import tempfile
 import time
 from concurrent.futures import ThreadPoolExecutor
 
@@ -151,6 +154,107 @@ def csv(xs):
     return ",".join(map(str, xs)) if len(xs) else "-"
 
 
+# ------------------------------------------------------------------------------- plan observer (writer model)
+SHIM_SRC = os.path.join(HERE, "c07_plan_shim.c")
+
+
+def build_plan_shim():
+    """Compile harness/c07_plan_shim.c, which #includes the unchanged mlw_encode.c of the tree under test, into a
+    scratch directory.  Returns the executable."""
+    d = tempfile.mkdtemp(prefix="velaverif_shim_")
+    atexit.register(shutil.rmtree, d, True)
+    enc = os.path.join(common.REPO, "ethosu", "mlw_codec", "mlw_encode.c")
+    exe = os.path.join(d, "c07_plan_shim")
+    cmd = ["gcc", "-O1", "-g", "-DNDEBUG", '-DMLW_ENCODE_C="%s"' % enc, "-I" + os.path.dirname(enc), SHIM_SRC, "-o", exe, "-lm"]
+    r = subprocess.run(cmd, capture_output=True, text=True)
+    if r.returncode != 0:
+        return None, r.stderr[-1500:]
+    return exe, ""
+
+
+def _shim_shard(exe, seqs, timeout):
+    """answers of one shim process, restarted behind a sequence that kills it"""
+    out, start, crashes = [], 0, 0
+    while start < len(seqs):
+        if crashes >= 6:
+            out.extend("skipped" for _ in seqs[start:])
+            break
+        data = "".join("%d %s\n" % (len(q), " ".join(map(str, q))) for q in seqs[start:])
+        try:
+            r = subprocess.run([exe], input=data, capture_output=True, text=True, timeout=timeout)
+            lines, rc, err = r.stdout.split("\n"), r.returncode, r.stderr
+        except subprocess.TimeoutExpired as e:
+            so = e.stdout.decode() if isinstance(e.stdout, bytes) else (e.stdout or "")
+            lines, rc, err = so.split("\n"), "timeout", ""
+        if lines and lines[-1] == "":
+            lines.pop()
+        elif lines and rc != 0:
+            lines.pop()      # a partial line of the job that died
+        lines = lines[:len(seqs) - start]
+        out.extend(lines)
+        start += len(lines)
+        if start < len(seqs):
+            out.append("crash rc=%s %s" % (rc, err.strip().split("\n")[-1][:200] if err else ""))
+            start += 1
+            crashes += 1
+    return out
+
+
+def run_shim(exe, seqs, nproc=NPROC, timeout=900):
+    if not seqs:
+        return []
+    order = sorted(range(len(seqs)), key=lambda i: -len(seqs[i]))
+    shards = [[] for _ in range(min(nproc, len(seqs)))]
+    loads = [0] * len(shards)
+    for i in order:
+        k = loads.index(min(loads))
+        shards[k].append(i)
+        loads[k] += 30 + len(seqs[i])
+    with ThreadPoolExecutor(len(shards)) as ex:
+        outs = list(ex.map(lambda idxs: _shim_shard(exe, [seqs[i] for i in idxs], timeout), shards))
+    res = [None] * len(seqs)
+    for idxs, o in zip(shards, outs):
+        for i, x in zip(idxs, o):
+            res[i] = x
+    return res
+
+
+def plan_counters(ck, plan):
+    """which writer branches a real plan exercises"""
+    if plan == "-":
+        ck.count("plan_empty")
+        return
+    secs = plan.split("|")
+    if len(secs) > 1:
+        ck.count("plan_multi_section")
+    for sec in secs:
+        size, lut, palbits, uz, op, dofs, oz, slices = sec.split(";")
+        k = 0 if lut == "-" else len(lut.split(","))
+        ck.count("plan_palsize_%d" % k)
+        if uz == "1":
+            ck.count("plan_zero_runs")
+        if oz == "1":
+            ck.count("plan_only_zeros")
+        if int(dofs) > 0:
+            ck.count("plan_direct_offset_gt0")
+        sl = slices.split("/")
+        if len(sl) > 1:
+            ck.count("plan_multi_slice_section")
+        for x in sl:
+            ln, wcfg, zcfg = map(int, x.split(":"))
+            ck.count("plan_wcfg_%d" % wcfg)
+            if uz == "1":
+                ck.count("plan_zcfg_%d" % zcfg)
+            if ln == 32767:
+                ck.count("plan_slice_len_32767")
+
+
+EXPECTED_PLAN_BRANCHES = (["plan_wcfg_%d" % k for k in range(13)] + ["plan_zcfg_%d" % k for k in range(4)] +
+                          ["plan_palsize_%d" % k for k in [0] + list(range(2, 33))] +
+                          ["plan_empty", "plan_multi_section", "plan_zero_runs", "plan_only_zeros", "plan_direct_offset_gt0",
+                           "plan_multi_slice_section", "plan_slice_len_32767"])
+
+
 # ------------------------------------------------------------------------------------- generators
 def long_sequences(rng, thorough):
     """(label, sequence) pairs from distributions chosen to reach every coding mode of the encoder."""
@@ -181,6 +285,10 @@ def long_sequences(rng, thorough):
             add("alphabet+outliers", [rng.choice(pal) if rng.random() < 0.93 else rng.randint(-255, 255) for _ in range(n)])
             add("extremes", [rng.choice([-255, 255, -254, 254, 0, 1]) for _ in range(n)])
             add("neg255-heavy", [-255 if rng.random() < 0.4 else rng.randint(-255, 255) for _ in range(n)])
+    # flat distributions over a small range: more than 32 values, quotients <= 2 for a large divisor (truncated GRC, w_cfg 9..11)
+    for r in (11, 17, 20, 23, 40, 47, 63, 90):
+        for n in (300, 1000):
+            add("uniform-range%d" % r, [rng.randint(-r, r) for _ in range(n)])
     # exact palette sizes (uncompressed index mode needs all values inside the palette)
     for k in range(1, 35):
         pal = rng.sample(range(-255, 256), k)
@@ -287,6 +395,27 @@ def run_replay(ck, path, ext):
     rp = rec["replay"]
     job = None
     sanit = False
+    if str(rp.get("entry", "")).startswith("mlw_encode inside"):
+        # writer-model stage: observe the plan again, let the model write, compare
+        seq = rp["sequence"]
+        if len(seq) != rp.get("sequence_length", len(seq)):
+            print("replay: the recorded sequence was truncated (%d of %d weights)" % (len(seq), rp["sequence_length"]))
+            sys.exit(2)
+        shim, err = build_plan_shim()
+        if shim is None:
+            print("replay: plan observer does not compile:", err[-400:])
+            sys.exit(1)
+        o = run_shim(shim, [seq], nproc=1)[0]
+        real = bytes(__import__("ethosu.mlw_codec", fromlist=["encode"]).encode(seq)).hex()
+        print("observer:", o[:300])
+        bad = o.count(" ") != 1 or o.startswith(("shim-error", "crash"))
+        if not bad:
+            plan, hx = o.split(" ")
+            a = common.run_model(["mlwenc %s %s" % (plan, csv(seq))])[0]
+            print("Lean writer model:", a[:300])
+            bad = (hx if hx != "-" else "") != real or a != "ok planok=1 fits=1 " + (hx or "-")
+        print("replay:", "REPRODUCED" if bad else "not reproduced (model, observer and extension agree on this input now)")
+        sys.exit(1 if bad else 0)
     if isinstance(rp.get("job"), dict):
         job, sanit = rp["job"], "report" in rp
     elif "sequence" in rp:
@@ -324,7 +453,7 @@ def main():
     if ck.replay_arg:
         common.setup_repo_path()
         run_replay(ck, ck.replay_arg, common.build_mlw_codec())
-    ck.lean_stage(["VelaVerif.Props.C07"])
+    ck.lean_stage(["VelaVerif.Props.C07", "VelaVerif.Props.C07Encode"])
     common.setup_repo_path()
     ext = common.build_mlw_codec()
     from ethosu.vela.architecture_features import Accelerator, ArchitectureFeatures
@@ -357,6 +486,7 @@ def main():
             lines.append("mlwseq %s %s" % (csv(seq), r["enc"] or "-"))
             idx.append(i)
     verdicts = dict(zip(idx, lean_parallel(lines)))
+    seq_verdicts = verdicts
     for i, ((label, seq), r) in enumerate(zip(seq_jobs, seq_res)):
         evaluations += 1
         ck.count("seq_" + (label if label == "exhaustive" else "random"))
@@ -471,6 +601,7 @@ def main():
             lines.append("mlwcheck %s %s %s" % (csv(job["p"]), csv(job["w"]), r["enc"] or "-"))
             idx.append(i)
     verdicts = dict(zip(idx, lean_parallel(lines)))
+    vol_verdicts = verdicts
     for i, (job, meta, r) in enumerate(zip(vol_jobs, vol_meta, vol_res)):
         evaluations += 1
         ck.count("vol_entry_" + job["entry"])
@@ -525,6 +656,91 @@ def main():
             decoder_disagreements.append((len(ref), {"correspondence": "mlw_codec.decode vs Model/MlwDecode.lean", "stream_hex": ln[7:4096],
                                                      "lean": out[:200], "c_decoder_first": ref[:50]}))
     ck.count("decoder_streams_compared", len(dec_lines))
+
+    # ------------------------------------------------------------------ 2b. the writer model on the real encoder's own plans
+    # decode_encode_plan (Props/C07Encode.lean) proves: for every well-formed plan the reference decoder inverts Model/MlwEncode.lean.
+    # What ties that theorem to mlw_encode.c is checked here: (C) the model writes the real encoder's bytes when it is given the real
+    # encoder's plan, (D) every real plan satisfies PlanOk.  The plan is observed without touching the tree under test
+    # (harness/c07_plan_shim.c #includes mlw_encode.c).
+    wm = {"plans": 0, "plan_ok": 0, "bytes_equal": 0, "distinct_plans": 0}
+    shim, shim_err = build_plan_shim()
+    if shim is None:
+        ck.violation("harness/c07_plan_shim.c no longer compiles together with ethosu/mlw_codec/mlw_encode.c of the tree under test "
+                     "(static functions / palette_t fields the plan observer reads have changed): the correspondence between "
+                     "Model/MlwEncode.lean and the encoder is unchecked", {"compiler": shim_err}, found_input=False)
+    else:
+        wjobs = []      # (sequence handed to mlw_encode, real stream, Lean Spec accepted the real stream)
+        for i, ((label, seq), r) in enumerate(zip(seq_jobs, seq_res)):
+            if "enc" in r:
+                wjobs.append((seq, r["enc"], seq_verdicts[i].startswith("ok ")))
+        for i, (job, r) in enumerate(zip(vol_jobs, vol_res)):
+            # what mlw_encode was given by reorder_encode is the reordered volume with its padding = what the decoders return
+            if "enc" in r and r.get("dec") is not None and vol_verdicts[i].startswith("ok "):
+                wjobs.append((r["dec"], r["enc"], True))
+        shim_out = run_shim(shim, [w[0] for w in wjobs])
+        lines, lidx = [], []
+        for k, (w, o) in enumerate(zip(wjobs, shim_out)):
+            if o.count(" ") == 1 and not o.startswith(("shim-error", "crash", "skipped")):
+                lines.append("mlwenc %s %s" % (o.split(" ")[0], csv(w[0])))
+                lidx.append(k)
+        lean_out = dict(zip(lidx, lean_parallel(lines)))
+        plans_seen = set()
+        for k, ((seq, real_hex, spec_ok), o) in enumerate(zip(wjobs, shim_out)):
+            evaluations += 1
+            rp = {"entry": "mlw_encode inside harness/c07_plan_shim.c", "sequence": seq, "sequence_length": len(seq),
+                  "real_stream_hex": real_hex[:4096],
+                  "replay": "echo '<n> v0 v1 …' | c07_plan_shim ; Lean: mlwenc <plan> <sequence csv>"}
+            if k not in lean_out:
+                ck.count("plan_observer_" + o.split(" ")[0])
+                if o != "skipped":
+                    ck.violation(f"the plan observer (c07_plan_shim.c + mlw_encode.c) fails on a sequence of length {len(seq)} that the "
+                                 f"extension encodes: {o[:160]}", dict(rp, observer=o[:400]), found_input=False)
+                continue
+            plan, shim_hex = o.split(" ")
+            shim_hex = "" if shim_hex == "-" else shim_hex
+            wm["plans"] += 1
+            plans_seen.add(plan)
+            plan_counters(ck, plan)
+            if shim_hex != real_hex:
+                ck.violation(f"mlw_encode run inside the plan observer returns other bytes than the extension for the same sequence "
+                             f"(length {len(seq)})", dict(rp, observer_stream_hex=shim_hex[:4096]), found_input=False)
+                continue
+            a = lean_out[k]
+            m = re.match(r"(ok|err:\w+) planok=([01])(?: fits=([01]) (\S+))?$", a)
+            if not m:
+                raise InfraError("unexpected answer of mlwenc: " + a[:200])
+            planok = m.group(2) == "1"
+            model_hex = None if m.group(1) != "ok" else ("" if m.group(4) == "-" else m.group(4))
+            if model_hex == real_hex:
+                wm["max_stream_bytes_per_buffer_byte"] = max(wm.get("max_stream_bytes_per_buffer_byte", 0.0),
+                                                             round(len(real_hex) / 2 / (2 * len(seq) + 1024), 4))
+                if m.group(3) == "0":
+                    ck.violation(f"the stream of a sequence of length {len(seq)} ({len(real_hex) // 2} bytes) is longer than the encoder's output "
+                                 f"buffer inbuf_size*2+1024: bitbuf_putbit wrote past the allocation", dict(rp, plan=plan[:3000]))
+            wm["plan_ok"] += planok
+            wm["bytes_equal"] += model_hex == real_hex
+            if not spec_ok:
+                # the stream itself is reported by section 1; keep what the plan check says about it
+                ck.count("plan_of_rejected_stream_planok_%d_bytes_%s" % (planok, "equal" if model_hex == real_hex else "differ"))
+                continue
+            if not planok:
+                ck.violation(f"PlanOk (Spec/MlwPlan.lean) does not hold for a plan of the real encoder (sequence of length {len(seq)}) whose "
+                             f"stream the Spec accepts: decode_encode_plan does not cover this plan", dict(rp, plan=plan[:3000], lean=a[:200]),
+                             found_input=False)
+            elif model_hex != real_hex:
+                ck.violation(f"Model/MlwEncode.lean writes other bytes than mlw_encode for the encoder's own plan (sequence of length "
+                             f"{len(seq)}; the real stream is accepted by the Spec)", dict(rp, plan=plan[:3000], model=a[:4096]),
+                             found_input=False)
+            if k == 7:
+                ck.sample({"writer_model": {"sequence": seq[:40], "plan": plan[:300], "lean": a[:120]}})
+        wm["distinct_plans"] = len(plans_seen)
+        rej = {k_: v_ for k_, v_ in ck.counters.items() if k_.startswith("plan_of_rejected_stream_")}
+        if rej:
+            # diagnosis of the violations reported by section 1: an ill-formed plan points at the search half of the encoder,
+            # a well-formed plan with other bytes than the model's at its writing half
+            ck.notes.append("streams rejected by the Spec, by what the writer model says about their plan: " + json.dumps(rej))
+        for pl in plans_seen:
+            nontrivial.add(("plan", pl))
 
     # ------------------------------------------------------------------ 3. small-scope enumeration of the traversal (Lean)
     cov_lines = []
@@ -665,11 +881,17 @@ def main():
         "sanitizer": san_note or {"jobs": ck.counters.get("sanitizer_jobs", 0), "reports_on_valid_inputs": san_reports,
                                   "build": "clang -fsanitize=address,undefined -fno-sanitize-recover=undefined, LD_PRELOAD asan runtime, worker subprocess"},
         "unreached_branches": unreached,
+        "writer_model": dict(wm, unreached_plan_branches=[b for b in EXPECTED_PLAN_BRANCHES if b not in ck.counters],
+                             observed_by="harness/c07_plan_shim.c (#includes the tree's mlw_encode.c unchanged; encode_slice's own verbose "
+                                         "line gives the slice parameters, search_palette_sections/find_palette are re-run for the palettes)"),
         "wall_validation_s": round(time.time() - t_start, 1),
     }, assumptions=[
         "the hardware's block-traversal order is the one written down in `reorder` (mlw_encode.c); Model/Reorder.lean transcribes it and "
         "Props/C07.lean proves it is a bijection plus zero padding (depth-first), the other traversals are enumerated on small scopes",
         "mlw_decode.c is the reference decoder; Model/MlwDecode.lean transcribes it and is compared with it on every stream of the run",
+        "Model/MlwEncode.lean transcribes the bit-stream writing half of mlw_encode.c; it is compared byte for byte with the real encoder "
+        "on the encoder's own plans of this run, and PlanOk is evaluated on each of them; that *every* plan the search can ever produce "
+        "satisfies PlanOk is not proved (the search is not modelled)",
         "memory safety is observed (ASan/UBSan on the inputs of this run), not proved",
     ])
 
